@@ -58,6 +58,52 @@ def run(rep, tier, seed, replay):
             missing = [o for o in yl if o not in got]
             rep.violation("oracle", ("a stack of filters yields %r, which one of them discards" % extra[0]) if extra else ("a stack of filters loses %r, which every one of them keeps and which is not beneath a discarded tree" % (missing[0] if missing else "?")), c.describe(), impl=c.impl[:400])
     walklib.correspondence_step(rep, direct, "filter stacks")
+    # ---- stacks of entry filters over GLOB walks (pivot 0: the relative path is the path below the base): the yielded
+    # entries are those of the same glob walk without the stack that no rule names and that do not lie beneath a
+    # directory a rule discards as a tree
+    if replay is None or (replay["input"].get("mode") == "g" and all(l.startswith("f:") for l in replay["input"].get("stack", "-").split(";"))):
+        gd = [c for c in walklib.gen_cases(seed + 5, n * 3, stack=c13.filter_stack, bounds="none", mode="g", link="f")
+              if c.labels["base"] in ("root", "subdir") and not c.expr.startswith(("/", "@ROOT", ".", "(?"))]
+        if replay is not None:
+            gd = [walklib.case_from(replay["input"])]
+        gtw = [c.clone(stack="-") for c in gd]
+        walklib.run_cases(gd)
+        walklib.run_cases(gtw, with_model=False)
+        walklib.correspondence_step(rep, gd, "filter stacks over glob walks")
+        rep.evaluations += len(gd)
+        wps = common.harness().ask(["WP - %s" % hx(c.expr) for c in gd])
+        for c, t, wp in zip(gd, gtw, wps):
+            if not (c.head.startswith("root=") and t.head.startswith("root=")):
+                continue
+            oks = walklib.ok_items(c.f.get("items"))
+            toks = walklib.ok_items(t.f.get("items"))
+            if " pivot=0 " not in wp + " ":
+                # a glob with an invariant prefix starts below the base: the directories of the prefix are not fed
+                rep.stats["glob-direct: skipped (prefixed glob)"] += 1
+                continue
+            rules = [r for _k, r in c13.parse_rules(c.stack)]
+            base = unhx(c.f["base"]).rstrip("/")
+            def verdicts(name):
+                return [r.get(name) for r in rules]
+            def name_of(p):
+                return p.rstrip("/").rsplit("/", 1)[-1]
+            def tree_above(p):
+                rel = p[len(base):].strip("/").split("/")
+                # the walk root itself and every directory between it and the entry
+                chain = [base] + [base + "/" + "/".join(rel[:i]) for i in range(1, len(rel))]
+                return any("T" in [v for v in verdicts(name_of(a))] for a in chain if a != p)
+            want = [x[0] for x in toks if not any(v is not None for v in verdicts(name_of(x[0]))) and not tree_above(x[0])]
+            got = [x[0] for x in oks]
+            if got == want:
+                rep.stats["glob-direct: yielded = the glob walk's entries every layer keeps"] += 1
+                if len(want) < len(toks):
+                    rep.distinct.add(c.req())
+            else:
+                extra = [g for g in got if g not in want]
+                missing = [o for o in want if o not in got]
+                rep.violation("oracle", ("a stack of filters over a glob walk yields %r, which one of them discards" % extra[0]) if extra else
+                              ("a stack of filters over a glob walk loses %r, which the glob walk alone yields, every layer keeps and which is not beneath a directory discarded as a tree" % (missing[0] if missing else "?")),
+                              c.describe(), impl=c.impl[:400])
     findings, _ = common.load_findings("C16")
     finding_ids = {f["id"] for f in findings}
     rep.evaluations = len(cases) + len(direct)
